@@ -181,5 +181,5 @@ def run(ctx):
         for c in cases:
             yield {"prog": c["prog"], "steps": c["steps"]}
 
-    run_systematic(ctx, strip(distinct_step_cases(ctx.shard, ctx.nshards, real_ops, None, params=(0, 1) if quick else (0, 1, 2, 5, 7), extra=[0])), guarded(ctx, check_case), keep_one_in=(lambda c: 1 if sched.OPS.get(c["steps"][0][0], {}).get("group") == "storage" else 9) if quick else 1, label="template-single-steps", presharded=True)
+    run_systematic(ctx, strip(distinct_step_cases(ctx.shard, ctx.nshards, real_ops, None, params=(0, 1) if quick else (0, 1, 2, 3, 5, 7), extra=[0])), guarded(ctx, check_case), keep_one_in=(lambda c: 1 if sched.OPS.get(c["steps"][0][0], {}).get("group") == "storage" else 9) if quick else 1, label="template-single-steps", presharded=True)
     run_cases(ctx, case_strategy(8 if ctx.tier == "quick" else 16, names), guarded(ctx, check_case), ctx.budget(512, 5120))
